@@ -115,11 +115,17 @@ class ClohessyWiltshire(AnalyticalPropagator):
 
         # Maneuvers handling
         for man in self.orbit.maneuvers:
-            if isinstance(man, ImpulsiveMan) and date >= man.date:
+            # Only the maneuvers located between the epoch of the initial orbit and the
+            # requested date are applied
+            if isinstance(man, ImpulsiveMan) and self.orbit.date <= man.date <= date:
                 orb = self._propagate(man.date, orb)
                 orb[3:] += man.dv(orb)
-            elif isinstance(man, ContinuousMan) and date >= man.start:
-                orb = self._propagate(man.start, orb)
+            elif (
+                isinstance(man, ContinuousMan)
+                and man.start <= date
+                and self.orbit.date < man.stop
+            ):
+                orb = self._propagate(max(man.start, orb.date), orb)
                 if man.check(date):
                     # If the date of propagation is during a continuous maneuver
                     return self._propagate(date, orb, man.accel(orb))
